@@ -174,12 +174,15 @@ func (c *Ctx) currentInput() any {
 // Violation records a refutation. sig identifies the kind of failure (used
 // for de-duplication and for matching known findings).
 func (c *Ctx) Violation(sig, what string, detail map[string]any) {
-	if detail == nil {
-		detail = map[string]any{}
+	// work on a copy: callers may pass the very map they published as input
+	cp := map[string]any{}
+	for k, v := range detail {
+		cp[k] = clip(v)
 	}
+	detail = cp
 	if _, ok := detail["input"]; !ok {
 		if in := c.currentInput(); in != nil {
-			detail["input"] = in
+			detail["input"] = clip(in)
 		}
 	}
 	v := Violation{Property: c.Check.ID, Sig: sig, What: what, Tier: c.Tier, Seed: c.Seed,
@@ -188,7 +191,11 @@ func (c *Ctx) Violation(sig, what string, detail map[string]any) {
 	c.caseViol++
 	c.violations = append(c.violations, v)
 	if c.violSink != nil {
-		b, _ := json.Marshal(v)
+		b, err := json.Marshal(v)
+		if err != nil {
+			v.Detail = map[string]any{"marshal_error": err.Error()}
+			b, _ = json.Marshal(v)
+		}
 		c.violSink.Write(append(b, '\n'))
 	}
 	c.mu.Unlock()
